@@ -114,4 +114,37 @@ def forIn {α σ : Type} : List α → (σ → α → Step σ Empty) → σ → 
     | .stop s' => s'
     | .ret r => nomatch r
 
+/-- `for x in slice` whose body may `return` -/
+def forInR {α σ ρ : Type} : List α → (σ → α → Step σ ρ) → σ → σ ⊕ ρ
+  | [], _, s => .inl s
+  | x :: xs, f, s =>
+    match f s x with
+    | .next s' => forInR xs f s'
+    | .stop s' => .inl s'
+    | .ret r => .inr r
+
+/-- `slice.iter().enumerate()` -/
+def enumerateFrom {α : Type} : Int → List α → List (Int × α)
+  | _, [] => []
+  | i, x :: xs => (i, x) :: enumerateFrom (i + 1) xs
+
+def enumerate {α : Type} (l : List α) : List (Int × α) := enumerateFrom 0 l
+
+/-- `slice.iter().position(p)` -/
+def positionFrom {α : Type} (p : α → Bool) : Int → List α → Option Int
+  | _, [] => none
+  | i, x :: xs => if p x then some i else positionFrom p (i + 1) xs
+
+def position {α : Type} (p : α → Bool) (l : List α) : Option Int := positionFrom p 0 l
+
+/-- `slice.windows(2).all(p)`; the predicate sees the two-element window as a list -/
+def windows2All {α : Type} (p : List α → Bool) : List α → Bool
+  | a :: b :: rest => p [a, b] && windows2All p (b :: rest)
+  | _ => true
+
+/-- `for chunk in slice.chunks_exact_mut(2) { chunk.swap(0, 1) }` -/
+def swapPairs {α : Type} : List α → List α
+  | a :: b :: rest => b :: a :: swapPairs rest
+  | l => l
+
 end TzVerif.Src
